@@ -172,15 +172,18 @@ func serializeAttrs(pc *PrintCtx, kvps Attrs) (err error) { //nolint:revive
 			ct.echoColorAndBg(pc, pc.clr, pc.bg)
 		}
 
-		if !inGroupedMode {
-			_, inGroupedMode = v.(groupedValue)
+		// a group only opens a dotted prefix for its own members; the
+		// attributes following it at this level keep their keys.
+		inGrouped := inGroupedMode
+		if !inGrouped {
+			_, inGrouped = v.(groupedValue)
 		}
 
 		key := v.Key()
-		if inGroupedMode && !pc.jsonMode && pc.valueStringer == nil {
+		if inGrouped && !pc.jsonMode && pc.valueStringer == nil {
 			key = strings.DotPrefix(key, prefix)
 		} else {
-			if inGroupedMode && !pc.jsonMode && pc.valueStringer == nil {
+			if inGrouped && !pc.jsonMode && pc.valueStringer == nil {
 				panic("impossible condition matched: inGroupedMode && !pc.jsonMode")
 				// if inGroupedMode && !pc.jsonMode {
 				// 	key = DotPrefix(key, prefix)
